@@ -281,6 +281,9 @@ func ruleEqFields(c *Ctx) {
 				default:
 					seen[pa] = true
 					c.R.OK(name, desc, call.Pos(), "same component %q of both operands", pa)
+					if strings.Contains(pa, "[]") && j.bind == nil {
+						c.eqPairing(name, fd, call, pr, call.Args[0], call.Args[1], pa)
+					}
 				}
 			}
 			// element-wise loops are guarded by a length inequality test returning failure
@@ -749,6 +752,146 @@ func ruleKindSwitch(c *Ctx) {
 		okDef := def != nil && len(c.callsTo(&ast.BlockStmt{List: def.Body}, "util.Unreachable", "builtin.panic")) > 0
 		c.R.Check(okDef, name, "default fails", sw.Pos(), "unexpected kinds stop loudly", "default branch missing or silent")
 	}
+	c.kindClasses(pk, prim, comp)
+}
+
+// kindClasses (part of KINDSW): unify, the checker's map-key rule and keyable() dispatch on the two kind classes. The
+// atomic arm of unify (`x.IsPrimitive() && y.IsPrimitive() && x.Kind == y.Kind` -> equal) is sound only because a primitive
+// kind has no components; the composite arm reaches unifyComposite, whose switch covers exactly the composite kinds. So
+// (a) the two predicates, evaluated on every Kind constant, accept exactly {num,str,bool,time} and exactly the kinds with
+// components, and (b) every call `.IsPrimitive()` / `.IsComposite()` in the module resolves to those predicates — a method
+// of the same name declared on Type would silently take over every `ty.IsPrimitive()` (Kind is embedded in Type).
+func (c *Ctx) kindClasses(pk *packages.Package, prim, comp []string) {
+	want := map[string]map[string]bool{"IsPrimitive": {}, "IsComposite": {}}
+	for _, k := range prim {
+		want["IsPrimitive"][k] = true
+	}
+	for _, k := range comp {
+		want["IsComposite"][k] = true
+	}
+	preds := map[string]types.Object{}
+	for _, nm := range []string{"IsPrimitive", "IsComposite"} {
+		fd := c.FuncDecl("types", "Kind."+nm)
+		name := "types.Kind." + nm
+		if fd == nil {
+			c.R.Anchor(name)
+			continue
+		}
+		preds[nm] = c.calleeObjOfDecl(fd)
+		var param types.Object
+		if fd.Recv != nil && len(fd.Recv.List) == 1 && len(fd.Recv.List[0].Names) == 1 {
+			param = c.objOf(fd.Recv.List[0].Names[0])
+		}
+		rets := returnsIn(fd.Body)
+		if param == nil || len(rets) != 1 || len(rets[0].Results) != 1 || len(fd.Body.List) != 1 {
+			c.R.Unk(name, "accepts exactly its kind class", fd.Pos(), "the predicate is not a single boolean expression over its receiver")
+			continue
+		}
+		var wrong []string
+		decided := true
+		for _, n := range pk.Types.Scope().Names() {
+			cst, ok := pk.Types.Scope().Lookup(n).(*types.Const)
+			if !ok || typeStr(cst.Type()) != "types.Kind" {
+				continue
+			}
+			v, ok := c.evalBoolOver(rets[0].Results[0], param, cst.Val())
+			if !ok {
+				decided = false
+				break
+			}
+			if n == "kPrimitiveBegin" || n == "kCompositeBegin" {
+				if v {
+					wrong = append(wrong, n+" (a marker, not a kind)")
+				}
+				continue
+			}
+			if v != want[nm]["types."+n] {
+				wrong = append(wrong, fmt.Sprintf("%s -> %v", n, v))
+			}
+		}
+		if !decided {
+			c.R.Unk(name, "accepts exactly its kind class", fd.Pos(), "the predicate could not be evaluated on the Kind constants")
+			continue
+		}
+		c.R.Check(len(wrong) == 0, name, "accepts exactly its kind class", fd.Pos(), "evaluated on every Kind constant", "evaluated on the Kind constants the predicate disagrees with the class the dispatch relies on: "+strings.Join(wrong, ", "))
+	}
+	n := 0
+	for _, p := range c.sortedMod() {
+		for _, f := range p.Syntax {
+			for _, d := range f.Decls {
+				fd, ok := d.(*ast.FuncDecl)
+				if !ok || fd.Body == nil {
+					continue
+				}
+				owner := fnName(short(p.PkgPath), fd)
+				for _, call := range c.calls(fd.Body) {
+					se, ok := call.Fun.(*ast.SelectorExpr)
+					if !ok || (se.Sel.Name != "IsPrimitive" && se.Sel.Name != "IsComposite") || len(call.Args) != 0 {
+						continue
+					}
+					if t := c.typeOf(se.X); t == nil || !strings.Contains(typeStr(t), "types.") {
+						continue
+					}
+					callee := c.calleeObj(call)
+					if preds[se.Sel.Name] == nil {
+						continue
+					}
+					n++
+					c.R.Check(callee == preds[se.Sel.Name], owner, "kind class of "+src(se.X)+" decided by types.Kind."+se.Sel.Name, call.Pos(), "the predicate on the kind alone",
+						"`"+src(call)+"` resolves to "+qualOr(callee)+", not to types.Kind."+se.Sel.Name+": the dispatch on kind classes (unify's atomic arm, map keys) now asks a different question than the one its arms were written for")
+				}
+			}
+		}
+	}
+	c.R.Check(n >= 4, "types.Kind", "kind-class call sites found", token.NoPos, fmt.Sprintf("%d call sites", n), "fewer kind-class tests than at the pinned commit: the rule would pass vacuously")
+}
+
+func qualOr(o types.Object) string {
+	if o == nil {
+		return "an unresolved callee"
+	}
+	return qual(o)
+}
+
+// evalBoolOver evaluates a boolean expression in which param stands for the constant v (comparisons with constants, && || !).
+func (c *Ctx) evalBoolOver(e ast.Expr, param types.Object, v constant.Value) (bool, bool) {
+	val := func(x ast.Expr) constant.Value {
+		x = unparen(x)
+		if id, ok := x.(*ast.Ident); ok && c.objOf(id) == param {
+			return v
+		}
+		return c.constOf(x)
+	}
+	switch x := unparen(e).(type) {
+	case *ast.UnaryExpr:
+		if x.Op == token.NOT {
+			b, ok := c.evalBoolOver(x.X, param, v)
+			return !b, ok
+		}
+	case *ast.BinaryExpr:
+		switch x.Op {
+		case token.LAND, token.LOR:
+			l, ok1 := c.evalBoolOver(x.X, param, v)
+			r, ok2 := c.evalBoolOver(x.Y, param, v)
+			if !ok1 || !ok2 {
+				return false, false
+			}
+			if x.Op == token.LAND {
+				return l && r, true
+			}
+			return l || r, true
+		case token.EQL, token.NEQ, token.LSS, token.LEQ, token.GTR, token.GEQ:
+			l, r := val(x.X), val(x.Y)
+			if l == nil || r == nil {
+				return false, false
+			}
+			return constant.Compare(l, x.Op, r), true
+		}
+	}
+	if cv := c.constOf(e); cv != nil && cv.Kind() == constant.Bool {
+		return constant.BoolVal(cv), true
+	}
+	return false, false
 }
 
 // ---------- TC ----------
@@ -1571,4 +1714,254 @@ func (c *Ctx) calleeObjOfDecl(fd *ast.FuncDecl) types.Object {
 		}
 	})
 	return res
+}
+
+// ---------- EQ-FIELDS: element pairing ----------
+
+// eqPairing (part of EQ-FIELDS). "Same component path" says that x.Fields[..].Val is compared with y.Fields[..].Val; it does
+// not say that the two selected *elements* correspond. Inside an element-wise loop the element of one operand is selected by
+// position (the range variable, or seq[i] with the loop's index) and the element of the other by the same position, or — for
+// objects, whose equality ignores field order — by the *name of that very element*, looked up in the *other operand's own*
+// table (GetField / Get / R.Index[name] with R on the looked-up side). Pairing object fields by bare position is accepted only
+// on a path that assumes the two names equal. The selection is resolved per path through the loop body, so a position that is
+// `i` on one path and a table lookup on the other is judged on each.
+type eqElem struct {
+	kind     string       // "pos" | "name"
+	root     types.Object // the operand whose element is selected
+	nameRoot types.Object // kind name: the operand whose element (at the loop position) supplies the name
+	bad      string
+}
+
+func (c *Ctx) eqPairing(name string, fd *ast.FuncDecl, call *ast.CallExpr, pr *pathResolver, a, b ast.Expr, compPath string) {
+	var body *ast.BlockStmt
+	var keyObj, valObj types.Object
+	var rangeX ast.Expr
+	ast.Inspect(fd.Body, func(n ast.Node) bool {
+		if n == nil || n.Pos() > call.Pos() || n.End() < call.End() {
+			return n != nil && n.Pos() <= call.Pos()
+		}
+		switch l := n.(type) {
+		case *ast.RangeStmt:
+			body, keyObj, valObj, rangeX = l.Body, nil, nil, l.X
+			if l.Key != nil {
+				keyObj = c.objOf(l.Key)
+			}
+			if l.Value != nil {
+				valObj = c.objOf(l.Value)
+			}
+		case *ast.ForStmt:
+			body, keyObj, valObj, rangeX = l.Body, nil, nil, nil
+			if as, ok := l.Init.(*ast.AssignStmt); ok && len(as.Lhs) == 1 {
+				keyObj = c.objOf(as.Lhs[0])
+			}
+		}
+		return true
+	})
+	if body == nil || call.Pos() < body.Pos() || call.End() > body.End() {
+		return
+	}
+	paths, ok := c.retPathsLoose(body.List)
+	if !ok {
+		return
+	}
+	within := func(n ast.Node) bool { return n.Pos() <= call.Pos() && call.End() <= n.End() }
+	desc := "pairs " + src(a) + " ~ " + src(b)
+	verdict, why := "", ""
+	for _, p := range paths {
+		reaches := false
+		for _, pc := range p.conds {
+			if within(pc.e) {
+				reaches = true
+			}
+		}
+		for _, s := range p.stmts {
+			if within(s) {
+				reaches = true
+			}
+		}
+		if p.ret != nil && within(p.ret) {
+			reaches = true
+		}
+		if !reaches {
+			continue
+		}
+		env := map[types.Object]ast.Expr{}
+		for _, s := range p.stmts {
+			if s.Pos() >= call.Pos() {
+				continue
+			}
+			switch x := s.(type) {
+			case *ast.AssignStmt:
+				if len(x.Lhs) == len(x.Rhs) {
+					for i, l := range x.Lhs {
+						if o := c.objOf(l); o != nil {
+							env[o] = x.Rhs[i]
+						}
+					}
+				} else if len(x.Rhs) == 1 && len(x.Lhs) == 2 {
+					if o := c.objOf(x.Lhs[0]); o != nil {
+						env[o] = x.Rhs[0]
+					}
+				}
+			case *ast.DeclStmt:
+				if gd, ok := x.Decl.(*ast.GenDecl); ok {
+					for _, sp := range gd.Specs {
+						if vs, ok := sp.(*ast.ValueSpec); ok && len(vs.Values) == len(vs.Names) {
+							for i, n := range vs.Names {
+								env[c.objOf(n)] = vs.Values[i]
+							}
+						}
+					}
+				}
+			}
+		}
+		var elemOf func(e ast.Expr, d int) *eqElem
+		rootOf := func(e ast.Expr) types.Object {
+			r, _, ok := pr.path(e, 0)
+			if !ok {
+				return nil
+			}
+			return r
+		}
+		nameRootOf := func(n ast.Expr) types.Object {
+			se, ok := unparen(n).(*ast.SelectorExpr)
+			if !ok || se.Sel.Name != "Name" {
+				return nil
+			}
+			if el := elemOf(se.X, 0); el != nil && el.kind == "pos" {
+				return el.root
+			}
+			return nil
+		}
+		elemOf = func(e ast.Expr, d int) *eqElem {
+			if d > 10 {
+				return nil
+			}
+			switch x := unparen(e).(type) {
+			case *ast.Ident:
+				o := c.objOf(x)
+				if def, ok := env[o]; ok {
+					return elemOf(def, d+1)
+				}
+				if o != nil && o == valObj && rangeX != nil {
+					if r := rootOf(rangeX); r != nil {
+						return &eqElem{kind: "pos", root: r}
+					}
+					return nil
+				}
+				if def, ok := pr.defs[o]; ok {
+					return elemOf(def, d+1)
+				}
+			case *ast.SelectorExpr:
+				return elemOf(x.X, d+1)
+			case *ast.StarExpr:
+				return elemOf(x.X, d+1)
+			case *ast.CallExpr:
+				se, ok := x.Fun.(*ast.SelectorExpr)
+				if !ok {
+					return nil
+				}
+				if castAccessors[se.Sel.Name] && len(x.Args) == 0 {
+					return elemOf(se.X, d+1)
+				}
+				if (se.Sel.Name == "GetField" || se.Sel.Name == "MustGetField" || se.Sel.Name == "Get") && len(x.Args) == 1 {
+					r := rootOf(se.X)
+					nr := nameRootOf(x.Args[0])
+					if r == nil || nr == nil {
+						return nil
+					}
+					return &eqElem{kind: "name", root: r, nameRoot: nr}
+				}
+			case *ast.IndexExpr:
+				r := rootOf(x.X)
+				if r == nil {
+					return nil
+				}
+				idx := unparen(x.Index)
+				for k := 0; k < 4; k++ {
+					id, ok := idx.(*ast.Ident)
+					if !ok {
+						break
+					}
+					if def, ok := env[c.objOf(id)]; ok {
+						idx = unparen(def)
+						continue
+					}
+					break
+				}
+				if id, ok := idx.(*ast.Ident); ok && keyObj != nil && c.objOf(id) == keyObj {
+					return &eqElem{kind: "pos", root: r}
+				}
+				if ie, ok := idx.(*ast.IndexExpr); ok {
+					if se, ok := unparen(ie.X).(*ast.SelectorExpr); ok && se.Sel.Name == "Index" {
+						tr := rootOf(se.X)
+						nr := nameRootOf(ie.Index)
+						if tr == nil || nr == nil {
+							return nil
+						}
+						if tr != r {
+							return &eqElem{bad: "the position into " + src(x.X) + " is looked up in " + src(ie.X) + ", the other operand's name table"}
+						}
+						return &eqElem{kind: "name", root: r, nameRoot: nr}
+					}
+				}
+			}
+			return nil
+		}
+		ea, eb := elemOf(a, 0), elemOf(b, 0)
+		if ea != nil && ea.bad != "" {
+			verdict, why = "bad", ea.bad
+			break
+		}
+		if eb != nil && eb.bad != "" {
+			verdict, why = "bad", eb.bad
+			break
+		}
+		if ea == nil || eb == nil || ea.root == eb.root {
+			continue
+		}
+		switch {
+		case ea.kind == "pos" && eb.kind == "pos":
+			objectish := strings.Contains(compPath, "Fields") || strings.Contains(fd.Name.Name, "Obj")
+			if objectish {
+				assumed := false
+				for _, pc := range p.conds {
+					be, ok := unparen(pc.e).(*ast.BinaryExpr)
+					if !ok || !strings.HasSuffix(src(be.X), ".Name") || !strings.HasSuffix(src(be.Y), ".Name") {
+						continue
+					}
+					if (be.Op == token.EQL && pc.pos) || (be.Op == token.NEQ && !pc.pos) {
+						assumed = true
+					}
+				}
+				if !assumed {
+					verdict, why = "bad", "object fields are paired by position without the two names being known equal: equality of object types / values ignores field order"
+				}
+			}
+			if verdict == "" {
+				verdict = "ok"
+			}
+		case ea.kind == "pos" && eb.kind == "name":
+			if eb.nameRoot != ea.root {
+				verdict, why = "bad", "the name used for the lookup is not the name of the element it is compared with"
+			} else if verdict == "" {
+				verdict = "ok"
+			}
+		case ea.kind == "name" && eb.kind == "pos":
+			if ea.nameRoot != eb.root {
+				verdict, why = "bad", "the name used for the lookup is not the name of the element it is compared with"
+			} else if verdict == "" {
+				verdict = "ok"
+			}
+		}
+		if verdict == "bad" {
+			break
+		}
+	}
+	switch verdict {
+	case "ok":
+		c.R.OK(name, desc, call.Pos(), "corresponding elements: same position, or looked up by the element's own name in the other operand's table")
+	case "bad":
+		c.R.Bad(name, desc, call.Pos(), "%s", why)
+	}
 }
